@@ -238,13 +238,15 @@ def c20(tier):
     from . import chk_c20_fs
     res = list(chk_c20_fs.fs_results(tier))
     res += run_cases(mk("access", 150 if q else 6000, s + 20, "default", n_ops=60, precondition=False))
+    sizes = [None, 4095, 4096, 4097, 8192, 12288, 16384]
+    res += run_cases([dict(kind="credfile-size", seed=s * 131 + i, config="default", sim=False, params=dict(size=sizes[i % len(sizes)])) for i in range(21 if q else 210)])
     return report("C20", "fault_enumeration", res,
                   "(a) file level (authfs harness, real auth_file.c with --wrap'ed file-system calls): for generated credential files (DES/MD5/SHA-256/SHA-512, "
                   "1-6 users, up to 32 groups, below and above 4 KiB) every password change is re-run with a crash before and after each mutating file-system "
                   "call, every sampled short-write count and ENOSPC/EIO/EINTR on each call; each resulting on-disk snapshot is loaded by a fresh process "
                   "running the real loader and must accept exactly the old or exactly the new credential set; (b) daemon level: sequences of authenticate / "
                   "passwd by plain, admin, read-only and unknown users on all transports against the authorisation matrix, effectiveness judged from other "
-                  "connections; distinct = (user kind, hash, fault kind, crash point class, outcome) signatures",
+                  "connections; (c) valid credential files of every size class incl. exact multiples of the page size must load; distinct = (user kind, hash, fault kind, crash point class, outcome) signatures",
                   t0, tier, SIM_ASSUME + ["crash model: the file holds exactly the effects of the calls completed so far, in program order; reordering of unsynced pages and directory-entry durability are not modelled"],
                   min_events={"passwd_ok": 20})
 
